@@ -1,4 +1,4 @@
-import TakVerif.Proofs.Outcome
+import TakVerif.Proofs.RoadInv
 
 /-!
 # C02 — game end, winner and win reason follow the rules of Tak in every position
@@ -9,7 +9,12 @@ Rule book: `Spec.Conn`/`Spec.RoadPath` (inductive chain of adjacent squares), `S
 `Spec.abs : Pos → State` (what `At`, the reserves and the ply show).
 
 All theorems are for every size 3..8 and every bit pattern satisfying the stated hypotheses — no sampling.
-Helper lemmas live in `TakVerif/Proofs/{Grow,Adj,Flood,Popcount,Groups,SpecReach,Road,Outcome}.lean`.
+Helper lemmas live in `TakVerif/Proofs/{Grow,Adj,Flood,Popcount,Groups,SpecReach,Road,Outcome,RoadInv}.lean`.
+
+Hypotheses: `RoadWF p` (size 3..8, constants = `Precompute(size)`, `White`/`Black` on the board and disjoint,
+groups = `analyze()`); proved for `New` (`new_wf`) and for every result of `FromSquares` (`fromSquares_wf`);
+for results of `Move` it is C01's invariant, evaluated here on every sampled position (op `wfb`).
+`ReservesOK p`: stones + capstones of each side ≤ 255 (the byte sums in `GameOver` do not wrap).
 -/
 namespace C02
 open Tak Spec Roads
@@ -116,7 +121,7 @@ touches both the top and bottom rows or both the left and right columns (the tes
 the position seen through `At` has a chain of adjacent squares topped by that colour's flats/capstones
 joining two opposite edges.  (Single-square groups are dropped by `FloodGroups`; they cannot span a board
 of size ≥ 3.) -/
-theorem hasRoad_iff (p : Pos) (wf : WFBoard p) :
+theorem hasRoad_iff (p : Pos) (wf : RoadWF p) :
     (p.wgroups.any (isRoadGroup p.c) = true ↔ Spec.RoadPath (Spec.abs p) .white) ∧
     (p.bgroups.any (isRoadGroup p.c) = true ↔ Spec.RoadPath (Spec.abs p) .black) :=
   ⟨groups_any_iff_roadPath p wf .white (by decide), groups_any_iff_roadPath p wf .black (by decide)⟩
@@ -141,18 +146,18 @@ theorem outcome_rules (s : State) :
 /-- **`WinDetails()` = the rule book** on every well-formed board whose reserve sums fit a byte:
 over / winner (road owner; the previous mover on a double road; flats with the tie-break flag) /
 reason / both flat counts (popcounts = counts over the squares). -/
-theorem winDetails_refines (p : Pos) (wf : WFBoard p) (hr : ReservesOK p) :
+theorem winDetails_refines (p : Pos) (wf : RoadWF p) (hr : ReservesOK p) :
     toOutcome p.winDetails = Spec.outcome (Spec.abs p) :=
   Roads.winDetails_refines p wf hr
 
 /-- **`GameOver()` = the rule book.** -/
-theorem gameOver_refines (p : Pos) (wf : WFBoard p) (hr : ReservesOK p) :
+theorem gameOver_refines (p : Pos) (wf : RoadWF p) (hr : ReservesOK p) :
     p.gameOver = ((Spec.outcome (Spec.abs p)).over, (Spec.outcome (Spec.abs p)).winner) :=
   Roads.gameOver_refines p wf hr
 
 /-- **`ptn.ResultFromGame`**: the result string is the rule book's ("R-0", "0-F", "1/2-1/2", …), and the
 call panics exactly when the rule book says the game is still running. -/
-theorem result_refines (p : Pos) (wf : WFBoard p) (hr : ReservesOK p) :
+theorem result_refines (p : Pos) (wf : RoadWF p) (hr : ReservesOK p) :
     p.resultFromGame = match Spec.result (Spec.abs p) with
       | some r => .ok r
       | none => .error (.panic "ResultFromGame: game is not over") :=
@@ -167,6 +172,21 @@ theorem wfBoardB_iff (p : Pos) : p.wfBoardB = true ↔ WFBoard p ∧ ReservesOK 
 /-- start positions are well-formed -/
 theorem new_wf (cfg : Cfg) (p : Pos) (h : Pos.new cfg = .ok p) : WFBoard p :=
   Roads.new_wf cfg p h
+
+/-- **every position `FromSquares` returns** (any input it accepts, any ply, any configuration of size 3..8
+— other sizes make `New` panic) satisfies the hypothesis `RoadWF` of the theorems above -/
+theorem fromSquares_wf (basis : Array W) (cfg : Cfg) (board : List (List Nat)) (move : Int) (p : Pos)
+    (h : Pos.fromSquares basis cfg board move = .ok p) : RoadWF p :=
+  Roads.fromSquares_roadWF basis cfg board move p h
+
+/-- … so `GameOver()` on every constructed position whose reserve bytes did not wrap is the rule book's verdict -/
+theorem constructed_gameOver (basis : Array W) (cfg : Cfg) (board : List (List Nat)) (move : Int) (p : Pos)
+    (h : Pos.fromSquares basis cfg board move = .ok p) (hr : ReservesOK p) :
+    toOutcome p.winDetails = Spec.outcome (Spec.abs p) :=
+  Roads.winDetails_refines p (Roads.fromSquares_roadWF basis cfg board move p h) hr
+
+/-- the full invariant implies the part the theorems use -/
+theorem wfBoard_roadWF (p : Pos) (wf : WFBoard p) : RoadWF p := wf.toRoadWF
 
 /-- whatever `analyze` returns has its `analyzed` field true (so `Move`/`FromSquares` results do) -/
 theorem analyze_idem (p q : Pos) (h : p.analyze = some q) : q.analyze = some q :=
